@@ -41,12 +41,22 @@ def cursor_and_bound(fn):
 
 
 def container_local(fn):
-    """name of the local value that is Reset() on failure (None for parseValue)"""
+    """names of the locals the function returns (the container being built; none for parseValue)"""
+    local = set()
+    for st in astq.nodes_of(fn, "DeclStmt"):
+        for d in fn.nodes[st]["decls"]:
+            if "n" in d and not d.get("ref") and d.get("tk") != "ptr":
+                local.add(d["n"])
     names = set()
-    for c in astq.calls(fn, "Reset"):
-        r = fn.call_receiver(c)
-        if r is not None and fn.nodes[fn.strip(r)]["k"] == "DeclRefExpr":
-            names.add(fn.nodes[fn.strip(r)]["n"])
+    for r in astq.returns(fn):
+        v = fn.nodes[r].get("val", -1)
+        if v is None or v < 0:
+            continue
+        vn = fn.nodes[fn.strip_casts(v)]
+        while vn["k"] in ("CXXConstructExpr", "MaterializeTemporaryExpr", "ExprWithCleanups", "CXXBindTemporaryExpr") and len(vn.get("ch", [])) == 1:
+            vn = fn.nodes[fn.strip_casts(vn["ch"][0])]
+        if vn["k"] == "DeclRefExpr" and vn.get("n") in local:
+            names.add(vn["n"])
     return names
 
 
@@ -161,7 +171,7 @@ def run(ctx):
         cur_t, bound_t, cur_n, bound_n = cursor_and_bound(f)
         locals_reset = container_local(f)
         if name != "parseValue" and len(locals_reset) != 1:
-            raise AnalysisBroken("%s: expected one local container that is Reset() on failure, found %s" % (name, sorted(locals_reset)))
+            raise AnalysisBroken("%s: expected one returned local container, found %s" % (name, sorted(locals_reset)))
         holder = list(locals_reset)[0] if locals_reset else None
 
         def retag(fn, tag, e, holder=holder):
